@@ -28,6 +28,13 @@ pub enum Event {
         t: usize,
         op: Op,
     },
+    /// the worker's own code panics; while the thread is unwinding (`std::thread::panicking()` is
+    /// true) a destructor of the caller's makes this call; the caller then catches its panic and
+    /// the worker carries on
+    UnwindCall {
+        t: usize,
+        op: Op,
+    },
 }
 
 impl Event {
@@ -48,6 +55,10 @@ impl Event {
                 t,
                 op,
             } => format!("T{} EXITCALL {}", t, op.encode()),
+            Event::UnwindCall {
+                t,
+                op,
+            } => format!("T{} UNWINDCALL {}", t, op.encode()),
         }
     }
     pub fn decode(line: &str) -> Option<Event> {
@@ -67,6 +78,12 @@ impl Event {
         }
         if let Some(o) = rest.strip_prefix("EXITCALL ") {
             return Some(Event::ExitCall {
+                t,
+                op: Op::decode(o)?,
+            });
+        }
+        if let Some(o) = rest.strip_prefix("UNWINDCALL ") {
+            return Some(Event::UnwindCall {
                 t,
                 op: Op::decode(o)?,
             });
@@ -93,6 +110,10 @@ pub struct Swarm {
     pub nan_custom_permille: u64,
     /// in this run the allocator refuses while a worker is inside a library parse call
     pub alloc_faults: bool,
+    /// calls made from a destructor while the worker unwinds from its own panic
+    pub unwind_permille: u64,
+    /// in this run worker threads are spawned with a small stack (see ops::SMALL_STACK_BYTES)
+    pub small_stack: bool,
     pub weights: [u64; 7],
     pub small: bool,
 }
@@ -247,7 +268,7 @@ pub fn swarm(seed: u64, focus: &str, flags: &GenFlags) -> Swarm {
             0
         },
         special_off_permille: if faults {
-            r.below(if focus == "C15" {
+            r.below(if focus == "C15" || focus == "C17" || focus == "C09" {
                 100
             } else {
                 20
@@ -256,6 +277,12 @@ pub fn swarm(seed: u64, focus: &str, flags: &GenFlags) -> Swarm {
             0
         },
         alloc_faults: faults && r.chance(1, 3),
+        unwind_permille: if faults {
+            r.below(30)
+        } else {
+            0
+        },
+        small_stack: faults && r.chance(1, 4),
         nan_custom_permille: match focus {
             "C15" | "C17" => 60,
             _ => 8,
@@ -759,7 +786,43 @@ pub fn gen_pfloat(r: &mut Rng, ty: FloatTy, sw: &Swarm) -> (Vec<u8>, Option<u64>
             (s.into_bytes(), None)
         },
         8 => {
-            if r.chance(1, 2) {
+            if r.chance(1, 3) {
+                // exponents within a few units of where 64-, 32- and 16-bit accumulators end, with enough integer
+                // or fraction digits to push the adjusted exponent over: the value is 0, inf, or decided by the mantissa
+                let base: u128 = *r.pick(&[
+                    i64::MAX as u128,
+                    i64::MAX as u128 / 10,
+                    1u128 << 63,
+                    u64::MAX as u128,
+                    i32::MAX as u128,
+                    1u128 << 31,
+                    u32::MAX as u128,
+                    0x1000_0000u128,
+                    1_000_000_000_000_000_000u128,
+                    65536u128,
+                ]);
+                let e = if r.chance(1, 2) {
+                    base.saturating_sub(r.below(48) as u128)
+                } else {
+                    base + r.below(12) as u128
+                };
+                let zeros = "0".repeat(r.below(if sw.small { 8 } else { 45 }) as usize);
+                let nz = 1 + r.below(999);
+                let mant = match r.below(4) {
+                    0 => format!("0.{}{}", zeros, nz),
+                    1 => format!("{}{}", nz, zeros),
+                    2 => format!("{}.{}{}", r.below(10), zeros, r.below(10)),
+                    _ => format!("{}", r.below(3)),
+                };
+                let s = format!(
+                    "{}{}e{}{}",
+                    if r.chance(1, 3) { "-" } else { "" },
+                    mant,
+                    if r.chance(1, 2) { "-" } else if r.chance(1, 2) { "+" } else { "" },
+                    e
+                );
+                (s.into_bytes(), None)
+            } else if r.chance(1, 2) {
                 (r.pick(&EDGE_POOL).to_vec(), None)
             } else {
                 let z = if sw.small {
@@ -900,7 +963,50 @@ fn gen_pfloat_r_tie(r: &mut Rng, ty: FloatTy, radix: u8, sw: &Swarm) -> Option<(
 }
 
 #[allow(dead_code)]
+/// In radices of 24 and above the letters of "inf" and "nan" are digits: these inputs are ordinary
+/// numbers there (every character a digit of `radix`), whatever they happen to spell.
+const SPELL_POOL: [&[u8]; 18] = [
+    b"inf", b"nan", b"NaN", b"Inf", b"INF", b"NAN", b"infinity", b"Infinity", b"INFINITY", b"inf0", b"nan0", b"in", b"na", b"i", b"n",
+    b"infinit", b"nani", b"0inf",
+];
+
+#[allow(dead_code)]
+fn gen_pfloat_r_spell(r: &mut Rng, ty: FloatTy, radix: u8) -> Option<(Vec<u8>, u64)> {
+    let cands: Vec<&[u8]> = SPELL_POOL.iter().copied().filter(|t| t.iter().all(|&c| digit_val(c, radix as u32).is_some())).collect();
+    if cands.is_empty() {
+        return None;
+    }
+    let body = *r.pick(&cands);
+    let mut v: u128 = 0;
+    for &c in body {
+        v = v * radix as u128 + digit_val(c, radix as u32).unwrap() as u128;
+    }
+    // integer-to-float conversion is correctly rounded (nearest, ties to even)
+    let mag = match ty {
+        FloatTy::F64 => (v as f64).to_bits(),
+        FloatTy::F32 => (v as f32).to_bits() as u64,
+    };
+    let mut t = Vec::new();
+    let neg = match r.below(4) {
+        0 => {
+            t.push(b'-');
+            true
+        },
+        1 => {
+            t.push(b'+');
+            false
+        },
+        _ => false,
+    };
+    t.extend_from_slice(body);
+    Some((t, mag | ((neg as u64) << (ty.total_bits() - 1))))
+}
+
+#[allow(dead_code)]
 fn gen_pfloat_r(r: &mut Rng, ty: FloatTy, radix: u8) -> Option<(Vec<u8>, u64)> {
+    if radix >= 24 && r.chance(1, 8) {
+        return gen_pfloat_r_spell(r, ty, radix);
+    }
     let rx = radix as u128;
     let lim: u128 = match ty {
         FloatTy::F64 => 1 << 53,
@@ -1023,10 +1129,26 @@ pub fn gen_op(r: &mut Rng, sw: &Swarm) -> Op {
         // a run uses two or three of the custom strings, so the same options address sees different contents
         let hot = sw.hot_exps[0] as u64;
         let idx = ((hot + r.below(3)) % PNAN_POOL.len() as u64) as u8;
+        // half the time a text that spells the configured string (any case, optional sign)
+        let matching: Vec<u8> = (0..PNAN_TEXTS.len() as u8)
+            .filter(|&i| {
+                let t = PNAN_TEXTS[i as usize];
+                let body = match t.first() {
+                    Some(b'+') | Some(b'-') => &t[1..],
+                    _ => t,
+                };
+                body.eq_ignore_ascii_case(PNAN_POOL[idx as usize])
+            })
+            .collect();
+        let text = if !matching.is_empty() && r.chance(1, 2) {
+            *r.pick(&matching)
+        } else {
+            r.below(PNAN_TEXTS.len() as u64) as u8
+        };
         return Op::PNanCustom {
             ty: fty(r),
             idx,
-            text: r.below(PNAN_TEXTS.len() as u64) as u8,
+            text,
         };
     }
     if r.below(1000) < sw.nan_custom_permille {
@@ -1212,6 +1334,13 @@ pub fn gen_history(seed: u64, sw: &Swarm) -> Vec<Event> {
             ev.push(Event::Poison {
                 t,
                 pat: *r.pick(&POISON),
+            });
+        } else if x < sw.kill_permille + sw.poison_permille + sw.unwind_permille {
+            let op = gen_op(&mut r, sw);
+            issued.push(op.clone());
+            ev.push(Event::UnwindCall {
+                t,
+                op,
             });
         } else if !issued.is_empty() && r.chance(2, 25) {
             // the same call again, later, possibly from another worker: must give the same answer
